@@ -39,13 +39,23 @@ type c17Desc struct {
 	id   byte
 	prio int
 	qcap int
-	rcap int
+	rcap int // RecvMessageCapacity
+	bcap int // RecvBufferCapacity; 0 = leave the default (4096)
+}
+
+// the capacity ch.recving starts with
+func (d c17Desc) bufcap() int {
+	if d.bcap == 0 {
+		return defaultRecvBufferCapacity
+	}
+	return d.bcap
 }
 
 func c17ChDescs(ds []c17Desc) []*ChannelDescriptor {
 	out := make([]*ChannelDescriptor, len(ds))
 	for i, d := range ds {
-		out[i] = &ChannelDescriptor{ID: d.id, Priority: d.prio, SendQueueCapacity: d.qcap, RecvMessageCapacity: d.rcap}
+		out[i] = &ChannelDescriptor{ID: d.id, Priority: d.prio, SendQueueCapacity: d.qcap, RecvMessageCapacity: d.rcap,
+			RecvBufferCapacity: d.bcap}
 	}
 	return out
 }
@@ -151,6 +161,15 @@ func (r *c17Recv) lens() []int64 {
 	return out
 }
 
+// ch.recving == nil of every channel
+func (r *c17Recv) nils() []bool {
+	out := make([]bool, len(r.descs))
+	for i, d := range r.descs {
+		out[i] = r.mc.channelsIdx[d.id].recving == nil
+	}
+	return out
+}
+
 func (r *c17Recv) snapshot() (j []c17JE, errored bool, nAtErr int, errVal interface{}) {
 	r.mu.Lock()
 	defer r.mu.Unlock()
@@ -181,17 +200,43 @@ func c17Journal(j []c17JE) (coq string, human string) {
 	xs := make([]string, len(j))
 	hs := make([]string, len(j))
 	for i, e := range j {
-		xs[i] = vg.Tup(vg.Z(int64(e.ch)), vg.Hx(e.msg))
+		xs[i] = vg.Tup(vg.Z(int64(e.ch)), c17B(e.msg))
 		hs[i] = fmt.Sprintf("ch%d:%s", e.ch, c17Short(e.msg))
 	}
 	return vg.L(xs), strings.Join(hs, " ")
 }
 
 func c17Short(b []byte) string {
+	if len(b) == 0 {
+		return "<empty>"
+	}
 	if len(b) <= 12 {
 		return fmt.Sprintf("%x", b)
 	}
-	return fmt.Sprintf("%x..(%d bytes, pattern seed %d)", b[:4], len(b), b[0])
+	if c17IsPat(b) {
+		return fmt.Sprintf("%x..(%d bytes, pattern seed %d)", b[:4], len(b), b[0])
+	}
+	return fmt.Sprintf("%x(%d bytes, NOT the pattern)", b, len(b))
+}
+
+// is b the pattern c17Msg(b[0], len(b))?
+func c17IsPat(b []byte) bool {
+	for i := range b {
+		if b[i] != b[0]+byte(3*i) {
+			return false
+		}
+	}
+	return len(b) > 0
+}
+
+// c17B prints a byte slice as a Coq [blob]: (BP seed len) when the slice IS the pattern of that
+// seed and length (checked byte by byte, so the encoding is lossless for any slice), a hex
+// literal otherwise.
+func c17B(b []byte) string {
+	if len(b) > 8 && c17IsPat(b) {
+		return fmt.Sprintf("(BP %d %d)", b[0], len(b))
+	}
+	return "(BH " + vg.Hx(b) + ")"
 }
 
 // message bytes: b[i] = seed + 3*i, so a replay reader can rebuild them from (seed, length)
@@ -223,39 +268,69 @@ func c17DescsCoq(ds []c17Desc) string {
 	return vg.L(xs)
 }
 
+func c17BcapsCoq(ds []c17Desc) string {
+	xs := make([]int64, len(ds))
+	for i, d := range ds {
+		xs[i] = int64(d.bufcap())
+	}
+	return vg.ZL(xs)
+}
+
 func c17DescsHuman(ds []c17Desc) string {
 	xs := make([]string, len(ds))
 	for i, d := range ds {
-		xs[i] = fmt.Sprintf("{ID:%d Priority:%d SendQueueCapacity:%d RecvMessageCapacity:%d}", d.id, d.prio, d.qcap, d.rcap)
+		xs[i] = fmt.Sprintf("{ID:%d Priority:%d SendQueueCapacity:%d RecvMessageCapacity:%d RecvBufferCapacity:%d}", d.id, d.prio, d.qcap, d.rcap, d.bufcap())
 	}
 	return strings.Join(xs, ",")
 }
 
-// sizes around the packet payload limit and the receive capacity
-func c17Size(r *vg.Rand, maxsz, rcap int, allowOver bool) int {
+// Message sizes: the degenerate ones (0, 1), around the packet payload limit and its multiples,
+// around the receive BUFFER capacity (the initial cap of ch.recving: beyond it append replaces
+// the buffer), and around the receive MESSAGE capacity (beyond it the receiver must drop the
+// connection).
+func c17Size(r *vg.Rand, maxsz int, d c17Desc, allowOver bool) int {
+	bcap, rcap := d.bufcap(), d.rcap
 	var n int
-	switch r.Intn(13) {
-	case 0, 1:
+	switch r.Intn(22) {
+	case 0, 1, 2:
 		n = 0
-	case 2:
-		n = 1
 	case 3:
-		n = maxsz - 1
+		n = 1
 	case 4:
-		n = maxsz
+		n = maxsz - 1
 	case 5:
-		n = maxsz + 1
+		n = maxsz
 	case 6:
-		n = 2 * maxsz
+		n = maxsz + 1
 	case 7:
-		n = 2*maxsz + 1
+		n = 2 * maxsz
 	case 8:
-		n = rcap
+		n = 2*maxsz + 1
 	case 9:
-		n = rcap - 1
+		n = (3 + r.Intn(3)) * maxsz
 	case 10:
+		n = rcap
+	case 11:
+		n = rcap - 1
+	case 12:
 		if allowOver && r.Chance(40) {
 			n = rcap + 1 + r.Intn(3)
+		} else {
+			n = r.Intn(rcap + 1)
+		}
+	case 13:
+		n = bcap - 1
+	case 14:
+		n = bcap
+	case 15:
+		n = bcap + 1
+	case 16:
+		n = 2*bcap + 1
+	case 17:
+		n = 3*bcap + 17
+	case 18:
+		if bcap < rcap {
+			n = bcap + 1 + r.Intn(rcap-bcap)
 		} else {
 			n = r.Intn(rcap + 1)
 		}
@@ -265,16 +340,85 @@ func c17Size(r *vg.Rand, maxsz, rcap int, allowOver bool) int {
 	if n < 0 {
 		n = 0
 	}
-	if !allowOver && n > rcap {
+	if n > rcap && !(allowOver && n <= rcap+3) {
 		n = rcap
 	}
 	return n
+}
+
+// the follow-up of a message that outgrew the receive buffer: mostly the degenerate sizes
+func c17After(r *vg.Rand, maxsz int, d c17Desc) int {
+	switch r.Intn(10) {
+	case 0, 1, 2, 3, 4, 5:
+		return 0
+	case 6, 7:
+		return 1
+	case 8:
+		if maxsz <= d.rcap {
+			return maxsz
+		}
+		return d.rcap
+	}
+	return c17Size(r, maxsz, d, false)
+}
+
+// c17Tally records, for the evidence, the size classes of the messages accepted on one channel
+// (a message counts in every class it belongs to) and the classes of consecutive pairs.
+func c17Tally(cs *vg.Cases, maxsz int, d c17Desc, msgs [][]byte) {
+	bcap, rcap := d.bufcap(), d.rcap
+	cls := func(n int) string { // position relative to the buffer capacity
+		switch {
+		case n == 0:
+			return "0"
+		case n == 1 && bcap > 2:
+			return "1"
+		case n < bcap-1:
+			return "<bufcap-1"
+		case n == bcap-1:
+			return "bufcap-1"
+		case n == bcap:
+			return "bufcap"
+		case n == bcap+1:
+			return "bufcap+1"
+		}
+		return ">bufcap+1"
+	}
+	for i, m := range msgs {
+		n := len(m)
+		cs.Count("size:"+cls(n), 1)
+		if n == maxsz {
+			cs.Count("size:=payload", 1)
+		} else if n > maxsz && n%maxsz == 0 {
+			cs.Count("size:=k*payload", 1)
+		} else if n > maxsz && n%maxsz == 1 {
+			cs.Count("size:=k*payload+1", 1)
+		}
+		switch {
+		case n == rcap:
+			cs.Count("size:=msgcap", 1)
+		case n == rcap-1:
+			cs.Count("size:=msgcap-1", 1)
+		case n > rcap:
+			cs.Count("size:>msgcap", 1)
+		}
+		if i > 0 {
+			p := len(msgs[i-1])
+			if p >= bcap-1 || p == 0 {
+				if n <= 1 || n >= bcap-1 {
+					cs.Count("pair:"+cls(p)+","+cls(n), 1)
+				} else {
+					cs.Count("pair:"+cls(p)+",other", 1)
+				}
+			}
+		}
+	}
 }
 
 func c17GenDescs(r *vg.Rand, maxsz int) []c17Desc {
 	n := 1 + r.Intn(4)
 	ids := r.Perm(7)
 	ds := make([]c17Desc, n)
+	big := maxsz == defaultMaxPacketMsgPayloadSize
 	for i := range ds {
 		id := byte(ids[i])
 		if r.Chance(20) {
@@ -282,14 +426,40 @@ func c17GenDescs(r *vg.Rand, maxsz int) []c17Desc {
 		} else if r.Chance(15) {
 			id = byte(0x80 + 0x10*ids[i] + r.Intn(16)) // ids whose varint encoding takes two bytes
 		}
-		rcap := maxsz*(1+r.Intn(4)) + r.Intn(3)
-		ds[i] = c17Desc{id: id, prio: 1 + r.Intn(10), qcap: 1 + r.Intn(3), rcap: rcap}
+		var rcap, bcap int
+		if big {
+			// the default payload size with the default receive buffer (or one near it) and
+			// message capacities beyond the buffer
+			bcap = []int{0, 0, 0, 0, 1024, 2048, 4097, 5000}[r.Intn(8)]
+			b := bcap
+			if b == 0 {
+				b = defaultRecvBufferCapacity
+			}
+			rcap = []int{b + 1, b + 2, 2 * b, 2*b + 1, 3*b + 17, 16384, 20000}[r.Intn(7)]
+			if r.Chance(15) {
+				rcap = maxsz*(1+r.Intn(4)) + r.Intn(3) // within the buffer, as before
+			}
+		} else {
+			rcap = maxsz*(1+r.Intn(6)) + r.Intn(3)
+			if !r.Chance(35) { // else: default buffer, never outgrown by these messages
+				bcap = []int{1, 2, maxsz - 1, maxsz, maxsz + 1, 2 * maxsz, 2*maxsz + 1, rcap / 2, rcap/2 + 1, rcap - 1, rcap, rcap + 1}[r.Intn(12)]
+				if bcap < 1 {
+					bcap = 1
+				}
+			}
+		}
+		qcap := 1 + r.Intn(3)
+		if r.Chance(15) {
+			qcap = 4 + r.Intn(13)
+		}
+		ds[i] = c17Desc{id: id, prio: 1 + r.Intn(10), qcap: qcap, rcap: rcap, bcap: bcap}
 	}
 	return ds
 }
 
+// the payload size of case k: small ones, and for one case in 8 the default 1024
 func c17MaxSz(r *vg.Rand, k int) int {
-	if k%16 == 15 {
+	if k%8 == 7 {
 		return defaultMaxPacketMsgPayloadSize
 	}
 	return []int{1, 2, 3, 4, 5, 8, 16}[r.Intn(7)]
@@ -357,7 +527,7 @@ func (s *c17Stepper) step() (pkt *tmp2p.PacketMsg, exh bool, err error) {
 func (s *c17Stepper) close() { s.mc.flushTimer.Stop() }
 
 // runs a stepped history, feeds the produced bytes to a real receiver, returns the Coq term
-func c17RunMux(ds []c17Desc, maxsz int, script []c17Op, drain bool) (term, descr string, nontrivial bool) {
+func c17RunMux(cs *vg.Cases, ds []c17Desc, maxsz int, script []c17Op, drain bool) (term, descr string, nontrivial bool) {
 	st := c17NewStepper(ds, maxsz)
 	defer st.close()
 	var ops []c17Op
@@ -416,16 +586,20 @@ func c17RunMux(ds []c17Desc, maxsz int, script []c17Op, drain bool) (term, descr
 
 	var xs, hs []string
 	npk := 0
+	acc := map[byte][][]byte{}
 	for _, o := range ops {
 		if o.send {
-			xs = append(xs, vg.App("MSend", vg.Z(int64(o.ch)), vg.Hx(o.msg), vg.B(o.ok)))
+			xs = append(xs, vg.App("MSend", vg.Z(int64(o.ch)), c17B(o.msg), vg.B(o.ok)))
 			hs = append(hs, o.human)
+			if o.ok {
+				acc[o.ch] = append(acc[o.ch], o.msg)
+			}
 		} else {
 			p := "None"
 			h := "-"
 			if o.pkt != nil {
 				npk++
-				p = vg.Opt(true, vg.Tup(vg.Z(int64(o.pkt.ChannelID)), vg.B(o.pkt.EOF), vg.Hx(o.pkt.Data)))
+				p = vg.Opt(true, vg.Tup(vg.Z(int64(o.pkt.ChannelID)), vg.B(o.pkt.EOF), c17B(o.pkt.Data)))
 				h = fmt.Sprintf("pkt{ch%d eof=%v %s}", o.pkt.ChannelID, o.pkt.EOF, c17Short(o.pkt.Data))
 			}
 			xs = append(xs, vg.App("MStep", p, vg.B(o.exh)))
@@ -433,13 +607,54 @@ func c17RunMux(ds []c17Desc, maxsz int, script []c17Op, drain bool) (term, descr
 		}
 	}
 	jc, jh := c17Journal(j)
-	term = vg.App("CMux", vg.Nat(maxsz), c17DescsCoq(ds), vg.L(xs), vg.B(drain && panicked == ""), jc, vg.B(errored))
+	for _, d := range ds {
+		c17Tally(cs, maxsz, d, acc[d.id])
+	}
+	term = vg.App("CMux", vg.Nat(maxsz), c17DescsCoq(ds), c17BcapsCoq(ds), vg.L(xs), vg.B(drain && panicked == ""), jc, vg.B(errored))
 	descr = fmt.Sprintf("MaxPacketMsgPayloadSize=%d channels=[%s] ops: %s | receiver onReceive journal: %s | receiver onError=%v",
 		maxsz, c17DescsHuman(ds), strings.Join(hs, "; "), jh, errored)
 	if panicked != "" {
 		descr += " | HARNESS: sender failed: " + panicked
 	}
 	return term, descr, npk >= 2 && len(ds) >= 2
+}
+
+type c17MixMsg struct {
+	ch byte
+	n  int
+}
+
+type c17Mix struct {
+	name         string
+	maxsz        int
+	ds           []c17Desc
+	sched        []c17MixMsg
+	stepsBetween int
+}
+
+// c17DirectedMixes: schedules (channel, size) sent in this order; used both by the stepped
+// sender (Mux) and by two started MConnections (Conc).
+func c17DirectedMixes() []c17Mix {
+	B := defaultRecvBufferCapacity
+	P := defaultMaxPacketMsgPayloadSize
+	return []c17Mix{
+		{name: "mix:defaults:over-bufcap-then-empty", maxsz: P,
+			ds: []c17Desc{{id: 1, prio: 1, qcap: 16, rcap: defaultRecvMessageCapacity}, {id: 2, prio: 1, qcap: 16, rcap: defaultRecvMessageCapacity}},
+			sched: []c17MixMsg{{1, 5}, {2, 7}, {1, 3*B + 17}, {1, 0}, {2, 100}, {1, 11}, {2, 0}, {1, 2000}, {2, 10}}},
+		{name: "mix:defaults:bufcap-boundary-then-degenerate", maxsz: P,
+			ds: []c17Desc{{id: 0x20, prio: 5, qcap: 16, rcap: 4 * B}, {id: 0x30, prio: 1, qcap: 16, rcap: 4 * B}},
+			sched: []c17MixMsg{{0x20, B - 1}, {0x20, 0}, {0x30, B}, {0x30, 0}, {0x20, B}, {0x20, 0}, {0x20, 0}, {0x30, B + 1}, {0x30, 0}, {0x30, 1},
+				{0x20, B + 1}, {0x20, 1}, {0x20, 0}, {0x30, 4 * B}, {0x30, 0}, {0x20, 2 * P}, {0x20, 0}}},
+		{name: "mix:small:over-bufcap-then-empty", maxsz: 2,
+			ds:    []c17Desc{{id: 1, prio: 1, qcap: 16, rcap: 16, bcap: 4}, {id: 2, prio: 3, qcap: 16, rcap: 16, bcap: 4}},
+			sched: []c17MixMsg{{1, 3}, {1, 0}, {1, 4}, {1, 0}, {2, 1}, {1, 5}, {1, 0}, {2, 0}, {1, 0}, {1, 1}, {2, 16}, {2, 0}, {1, 16}, {1, 0}, {1, 2}, {2, 0}}},
+		{name: "mix:small:bufcap-1", maxsz: 1,
+			ds:    []c17Desc{{id: 0, prio: 1, qcap: 16, rcap: 6, bcap: 1}},
+			sched: []c17MixMsg{{0, 0}, {0, 1}, {0, 0}, {0, 2}, {0, 0}, {0, 0}, {0, 6}, {0, 0}, {0, 1}, {0, 0}}, stepsBetween: 1},
+		{name: "mix:small:payload-multiples-over-bufcap", maxsz: 4,
+			ds:    []c17Desc{{id: 0x81, prio: 2, qcap: 16, rcap: 24, bcap: 8}, {id: 3, prio: 2, qcap: 16, rcap: 24, bcap: 9}},
+			sched: []c17MixMsg{{0x81, 8}, {0x81, 0}, {3, 8}, {3, 0}, {0x81, 12}, {0x81, 0}, {3, 12}, {3, 0}, {0x81, 24}, {0x81, 0}, {0x81, 4}, {3, 23}, {3, 1}, {3, 0}}, stepsBetween: 2},
+	}
 }
 
 func TestVerifC17Mux(t *testing.T) {
@@ -455,7 +670,7 @@ func TestVerifC17Mux(t *testing.T) {
 				{send: true, ch: 1, msg: []byte{0xaa, 0xbb}}, {},
 				{send: true, ch: 1, msg: []byte{}}, {send: true, ch: 2, msg: []byte{0xcc}}, {}, {},
 			}
-			term, descr, _ := c17RunMux(ds, 8, script, true)
+			term, descr, _ := c17RunMux(cs, ds, 8, script, true)
 			cs.Add(id, "directed:empty-message-behind-other-channel", true, term, descr)
 		}
 	}
@@ -468,7 +683,7 @@ func TestVerifC17Mux(t *testing.T) {
 				{send: true, ch: 1, msg: []byte{1, 2, 3}}, {},
 				{send: true, ch: 1, msg: nil}, {send: true, ch: 1, msg: []byte{9}}, {send: true, ch: 2, msg: []byte{7, 7, 7, 7, 7}}, {}, {},
 			}
-			term, descr, _ := c17RunMux(ds, 4, script, true)
+			term, descr, _ := c17RunMux(cs, ds, 4, script, true)
 			cs.Add(id, "directed:nil-message-then-next", true, term, descr)
 		}
 	}
@@ -480,8 +695,26 @@ func TestVerifC17Mux(t *testing.T) {
 		if cs.Want(id) {
 			ds := []c17Desc{{id: 0xff, prio: 1, qcap: 1, rcap: 4096}, {id: 0x7f, prio: 1, qcap: 1, rcap: 4096}}
 			script := []c17Op{{send: true, ch: 0x7f, msg: c17Msg(1, 1024)}, {send: true, ch: 0xff, msg: c17Msg(2, 1030)}}
-			term, descr, _ := c17RunMux(ds, defaultMaxPacketMsgPayloadSize, script, true)
+			term, descr, _ := c17RunMux(cs, ds, defaultMaxPacketMsgPayloadSize, script, true)
 			cs.Add(id, "directed:full-packet-on-channel-0xff", true, term, descr)
+		}
+	}
+
+	// directed: size mixes across the receive buffer capacity followed by degenerate messages on
+	// the same channel, other channels in between (the reassembly buffer is replaced by append
+	// when a message outgrows it; the next, empty message must still be delivered)
+	for _, dm := range c17DirectedMixes() {
+		id := cs.NextID()
+		if cs.Want(id) {
+			var script []c17Op
+			for i, m := range dm.sched {
+				script = append(script, c17Op{send: true, ch: m.ch, msg: c17Msg(byte(31*i+7), m.n)})
+				for x := 0; x < dm.stepsBetween; x++ {
+					script = append(script, c17Op{})
+				}
+			}
+			term, descr, _ := c17RunMux(cs, dm.ds, dm.maxsz, script, true)
+			cs.Add(id, "directed:"+dm.name, true, term, descr)
 		}
 	}
 
@@ -497,7 +730,7 @@ func TestVerifC17Mux(t *testing.T) {
 		big := maxsz == defaultMaxPacketMsgPayloadSize
 		nops := 4 + r.Intn(24)
 		if big {
-			nops = 4 + r.Intn(8)
+			nops = 4 + r.Intn(10)
 		}
 		allowOver := r.Chance(25)
 		var script []c17Op
@@ -510,13 +743,29 @@ func TestVerifC17Mux(t *testing.T) {
 					ch = 0xEE // unknown channel
 				}
 				seed += 17
-				script = append(script, c17Op{send: true, ch: ch, msg: c17Msg(seed, c17Size(r, maxsz, d.rcap, allowOver))})
+				sz := c17Size(r, maxsz, d, allowOver)
+				script = append(script, c17Op{send: true, ch: ch, msg: c17Msg(seed, sz)})
+				// a message at or beyond the buffer capacity: mostly followed, on the same
+				// channel, by a degenerate one (and that by another), with sendPacketMsg steps
+				// and traffic of other channels in between
+				for f := 0; f < 2 && sz >= d.bufcap()-1 && sz <= d.rcap && ch == d.id && r.Chance(65-25*f); f++ {
+					for x := r.Intn(3); x > 0; x-- {
+						script = append(script, c17Op{})
+					}
+					if len(ds) > 1 && r.Chance(30) {
+						o := ds[r.Intn(len(ds))]
+						seed += 17
+						script = append(script, c17Op{send: true, ch: o.id, msg: c17Msg(seed, c17Size(r, maxsz, o, false))})
+					}
+					seed += 17
+					script = append(script, c17Op{send: true, ch: ch, msg: c17Msg(seed, c17After(r, maxsz, d))})
+				}
 			} else {
 				script = append(script, c17Op{})
 			}
 		}
 		drain := !r.Chance(15)
-		term, descr, nt := c17RunMux(ds, maxsz, script, drain)
+		term, descr, nt := c17RunMux(cs, ds, maxsz, script, drain)
 		kind := "mux"
 		if big {
 			kind = "mux:payload1024"
@@ -536,9 +785,147 @@ func TestVerifC17Mux(t *testing.T) {
 
 // ---------------------------------------------------------------- TestVerifC17Conc
 
+type c17Job struct {
+	ch  byte
+	msg []byte
+	try bool
+}
+
+// c17RunConc: two real started MConnections over net.Pipe; every plan is executed by its own
+// goroutine (Send / TrySend in the plan's order); a channel is used by one plan only.
+func c17RunConc(cs *vg.Cases, ds []c17Desc, maxsz int, limited bool, plans [][]c17Job) (term, descr string, total int) {
+	a, b := net.Pipe()
+	var mu sync.Mutex
+	var journal []c17JE
+	recvErr := make(chan interface{}, 1)
+	onReceive := func(ch byte, msg []byte) {
+		cp := append([]byte{}, msg...)
+		mu.Lock()
+		journal = append(journal, c17JE{ch, cp})
+		mu.Unlock()
+	}
+	rcv := NewMConnectionWithConfig(b, c17ChDescs(ds), onReceive, func(e interface{}) {
+		select {
+		case recvErr <- e:
+		default:
+		}
+	}, c17Cfg(maxsz, limited))
+	rcv.SetLogger(log.NewNopLogger())
+	snd := NewMConnectionWithConfig(a, c17ChDescs(ds), func(byte, []byte) {}, func(interface{}) {}, c17Cfg(maxsz, limited))
+	snd.SetLogger(log.NewNopLogger())
+	_ = rcv.Start()
+	_ = snd.Start()
+
+	accepted := make([][]c17JE, len(plans))
+	var wg sync.WaitGroup
+	senderDone := make(chan struct{})
+	for i := range plans {
+		wg.Add(1)
+		go func(i int) {
+			defer wg.Done()
+			for _, jb := range plans[i] {
+				var ok bool
+				if jb.try {
+					ok = snd.TrySend(jb.ch, jb.msg)
+				} else {
+					ok = snd.Send(jb.ch, jb.msg)
+				}
+				if ok {
+					accepted[i] = append(accepted[i], c17JE{jb.ch, jb.msg})
+				}
+			}
+		}(i)
+	}
+	go func() { wg.Wait(); close(senderDone) }()
+
+	var errVal interface{}
+	gotErr := false
+	select {
+	case <-senderDone:
+	case errVal = <-recvErr:
+		gotErr = true
+		// the receiver dropped the connection early: unblock Send calls waiting for queue room
+		for drained := false; !drained; {
+			select {
+			case <-senderDone:
+				drained = true
+			default:
+				for _, c := range snd.channels {
+					select {
+					case <-c.sendQueue:
+					default:
+					}
+				}
+				time.Sleep(time.Millisecond)
+			}
+		}
+	case <-time.After(20 * time.Second):
+	}
+	if !gotErr {
+		// FlushStop sends every accepted message, then closes: the receiver reports io.EOF
+		// after it has handled everything that was written
+		done := make(chan struct{})
+		go func() { snd.FlushStop(); close(done) }()
+		select {
+		case errVal = <-recvErr:
+		case <-time.After(5 * time.Second):
+			errVal = "HARNESS: receiver did not see the end of the stream within 5s"
+		}
+		select {
+		case <-done:
+		case <-time.After(5 * time.Second):
+		}
+	}
+	_ = snd.Stop()
+	_ = rcv.Stop()
+	a.Close()
+	b.Close()
+	realErr := !(errVal == io.EOF)
+	mu.Lock()
+	j := append([]c17JE{}, journal...)
+	mu.Unlock()
+
+	var accC, accH []string
+	perCh := map[byte][][]byte{}
+	for i := range plans {
+		var xs, hs []string
+		for _, e := range accepted[i] {
+			xs = append(xs, vg.Tup(vg.Z(int64(e.ch)), c17B(e.msg)))
+			hs = append(hs, fmt.Sprintf("ch%d:%s", e.ch, c17Short(e.msg)))
+			perCh[e.ch] = append(perCh[e.ch], e.msg)
+			total++
+		}
+		accC = append(accC, vg.L(xs))
+		accH = append(accH, fmt.Sprintf("goroutine %d: Send/TrySend accepted, in this order, [%s]", i, strings.Join(hs, " ")))
+	}
+	for _, d := range ds {
+		c17Tally(cs, maxsz, d, perCh[d.id])
+	}
+	jc, jh := c17Journal(j)
+	term = vg.App("CConc", vg.Nat(maxsz), c17DescsCoq(ds), c17BcapsCoq(ds), vg.L(accC), jc, vg.B(realErr))
+	descr = fmt.Sprintf("two MConnections over net.Pipe, MaxPacketMsgPayloadSize=%d rateLimited=%v channels=[%s]; %s | receiver journal: %s | receiver error: %v",
+		maxsz, limited, c17DescsHuman(ds), strings.Join(accH, "; "), jh, errVal)
+	return term, descr, total
+}
+
 func TestVerifC17Conc(t *testing.T) {
 	cs := vg.NewCases("C17", "c17_conc", "TM.C17.Exec")
 	root := vg.NewRand(vg.Seed())
+
+	// directed: the size mixes across the receive buffer capacity, one goroutine sending the
+	// schedule in order on both channels
+	for _, dm := range c17DirectedMixes() {
+		id := cs.NextID()
+		if cs.Want(id) {
+			var plan []c17Job
+			for i, m := range dm.sched {
+				plan = append(plan, c17Job{ch: m.ch, msg: c17Msg(byte(31*i+7), m.n)})
+			}
+			term, descr, _ := c17RunConc(cs, dm.ds, dm.maxsz, false, [][]c17Job{plan})
+			cs.Add(id, "directed:"+dm.name, true, term, descr)
+		}
+	}
+
 	n := vg.Scale(50, 3000)
 	for k := 0; k < n; k++ {
 		id := cs.NextID()
@@ -548,136 +935,36 @@ func TestVerifC17Conc(t *testing.T) {
 		r := root.Fork(uint64(k))
 		maxsz := c17MaxSz(r, k)
 		ds := c17GenDescs(r, maxsz)
-		limited := r.Chance(10) // default 500 kB/s rate limiting in a few cases
+		big := maxsz == defaultMaxPacketMsgPayloadSize
+		limited := r.Chance(10) && !big // default 500 kB/s rate limiting in a few cases
 
 		// per channel one goroutine with its message list
-		type job struct {
-			msg []byte
-			try bool
-		}
-		jobs := make([][]job, len(ds))
+		plans := make([][]c17Job, len(ds))
 		seed := byte(r.Intn(256))
 		for i, d := range ds {
 			m := 1 + r.Intn(8)
-			if maxsz == defaultMaxPacketMsgPayloadSize {
-				m = 1 + r.Intn(3)
+			if big {
+				m = 1 + r.Intn(5)
 			}
+			prev := -1
 			for x := 0; x < m; x++ {
 				seed += 29
-				jobs[i] = append(jobs[i], job{c17Msg(seed, c17Size(r, maxsz, d.rcap, false)), r.Chance(30)})
-			}
-		}
-
-		a, b := net.Pipe()
-		var mu sync.Mutex
-		var journal []c17JE
-		recvErr := make(chan interface{}, 1)
-		onReceive := func(ch byte, msg []byte) {
-			cp := append([]byte{}, msg...)
-			mu.Lock()
-			journal = append(journal, c17JE{ch, cp})
-			mu.Unlock()
-		}
-		rcv := NewMConnectionWithConfig(b, c17ChDescs(ds), onReceive, func(e interface{}) {
-			select {
-			case recvErr <- e:
-			default:
-			}
-		}, c17Cfg(maxsz, limited))
-		rcv.SetLogger(log.NewNopLogger())
-		snd := NewMConnectionWithConfig(a, c17ChDescs(ds), func(byte, []byte) {}, func(interface{}) {}, c17Cfg(maxsz, limited))
-		snd.SetLogger(log.NewNopLogger())
-		_ = rcv.Start()
-		_ = snd.Start()
-
-		accepted := make([][]c17JE, len(ds))
-		var wg sync.WaitGroup
-		senderDone := make(chan struct{})
-		for i := range ds {
-			wg.Add(1)
-			go func(i int) {
-				defer wg.Done()
-				for _, jb := range jobs[i] {
-					var ok bool
-					if jb.try {
-						ok = snd.TrySend(ds[i].id, jb.msg)
-					} else {
-						ok = snd.Send(ds[i].id, jb.msg)
-					}
-					if ok {
-						accepted[i] = append(accepted[i], c17JE{ds[i].id, jb.msg})
-					}
+				sz := c17Size(r, maxsz, d, false)
+				// right behind a message at or beyond the buffer capacity: mostly a degenerate one
+				if prev >= d.bufcap()-1 && r.Chance(60) {
+					sz = c17After(r, maxsz, d)
 				}
-			}(i)
-		}
-		go func() { wg.Wait(); close(senderDone) }()
-
-		var errVal interface{}
-		gotErr := false
-		select {
-		case <-senderDone:
-		case errVal = <-recvErr:
-			gotErr = true
-			// the receiver dropped the connection early: unblock Send calls waiting for queue room
-			for drained := false; !drained; {
-				select {
-				case <-senderDone:
-					drained = true
-				default:
-					for _, c := range snd.channels {
-						select {
-						case <-c.sendQueue:
-						default:
-						}
-					}
-					time.Sleep(time.Millisecond)
-				}
-			}
-		case <-time.After(20 * time.Second):
-		}
-		if !gotErr {
-			// FlushStop sends every accepted message, then closes: the receiver reports io.EOF
-			// after it has handled everything that was written
-			done := make(chan struct{})
-			go func() { snd.FlushStop(); close(done) }()
-			select {
-			case errVal = <-recvErr:
-			case <-time.After(5 * time.Second):
-				errVal = "HARNESS: receiver did not see the end of the stream within 5s"
-			}
-			select {
-			case <-done:
-			case <-time.After(5 * time.Second):
+				plans[i] = append(plans[i], c17Job{d.id, c17Msg(seed, sz), r.Chance(30)})
+				prev = sz
 			}
 		}
-		_ = snd.Stop()
-		_ = rcv.Stop()
-		a.Close()
-		b.Close()
-		realErr := !(errVal == io.EOF)
-		mu.Lock()
-		j := append([]c17JE{}, journal...)
-		mu.Unlock()
-
-		var accC, accH []string
-		total := 0
-		for i := range ds {
-			var xs, hs []string
-			for _, e := range accepted[i] {
-				xs = append(xs, vg.Tup(vg.Z(int64(e.ch)), vg.Hx(e.msg)))
-				hs = append(hs, c17Short(e.msg))
-				total++
-			}
-			accC = append(accC, vg.L(xs))
-			accH = append(accH, fmt.Sprintf("goroutine %d: Send/TrySend(ch%d) accepted [%s]", i, ds[i].id, strings.Join(hs, " ")))
-		}
-		jc, jh := c17Journal(j)
-		term := vg.App("CConc", vg.Nat(maxsz), c17DescsCoq(ds), vg.L(accC), jc, vg.B(realErr))
-		descr := fmt.Sprintf("two MConnections over net.Pipe, MaxPacketMsgPayloadSize=%d rateLimited=%v channels=[%s]; %s | receiver journal: %s | receiver error: %v",
-			maxsz, limited, c17DescsHuman(ds), strings.Join(accH, "; "), jh, errVal)
+		term, descr, total := c17RunConc(cs, ds, maxsz, limited, plans)
 		kind := "conc"
 		if limited {
 			kind = "conc:ratelimited"
+		}
+		if big {
+			kind += ":payload1024"
 		}
 		cs.Add(id, kind, total >= 3 && len(ds) >= 2, term, descr)
 	}
@@ -698,7 +985,7 @@ type c17Item struct {
 func (it c17Item) coq() string {
 	switch it.kind {
 	case "msg":
-		return vg.App("HMsg", vg.Z(int64(it.ch)), vg.B(it.eof), vg.Hx(it.data))
+		return vg.App("HMsg", vg.Z(int64(it.ch)), vg.B(it.eof), c17B(it.data))
 	case "ping":
 		return "HPing"
 	case "pong":
@@ -768,10 +1055,40 @@ func TestVerifC17Hostile(t *testing.T) {
 		kind := "clean"
 		var items []c17Item
 		seed := byte(r.Intn(256))
+		inbuf := map[byte]int{} // bytes of the message in progress, per channel, as the generator sees it
+		after := -1             // index in ds of a channel that has just completed a message at or beyond its buffer capacity
 		for i := 0; i < nitems; i++ {
-			d := ds[r.Intn(len(ds))]
+			di := r.Intn(len(ds))
+			if after >= 0 && r.Chance(60) {
+				di = after
+			}
+			d := ds[di]
 			seed += 13
-			it := c17Item{kind: "msg", ch: int32(d.id), eof: r.Chance(45), data: c17Msg(seed, r.Intn(maxsz+1))}
+			sz := r.Intn(maxsz + 1)
+			if r.Chance(12) {
+				sz = 0
+			} else if r.Chance(25) {
+				sz = maxsz
+			}
+			it := c17Item{kind: "msg", ch: int32(d.id), eof: r.Chance(45), data: c17Msg(seed, sz)}
+			if di == after && r.Chance(70) {
+				// right behind a message that outgrew (or just filled) the receive buffer: an empty
+				// or one-byte message in a single packet
+				it.eof = true
+				it.data = c17Msg(seed, r.Intn(5)/4)
+				cs.Count("hostile-stream:degenerate-msg-after-msg>=bufcap-1", 1)
+			}
+			after = -1
+			if i != hostileAt {
+				tot := inbuf[d.id] + len(it.data)
+				if it.eof {
+					if tot >= d.bufcap()-1 && tot <= d.rcap {
+						after = di
+					}
+					tot = 0
+				}
+				inbuf[d.id] = tot
+			}
 			if r.Chance(8) {
 				it = c17Item{kind: []string{"ping", "pong"}[r.Intn(2)]}
 			}
@@ -814,12 +1131,14 @@ func TestVerifC17Hostile(t *testing.T) {
 		}
 
 		var bufs [][]int64
+		var nils [][]bool
 		dead := false
 		for _, it := range items {
 			ok := rc.write(it.wire(r, maxPkt))
 			if ok && !dead {
 				if rc.barrier() {
 					bufs = append(bufs, rc.lens())
+					nils = append(nils, rc.nils())
 				} else {
 					dead = true
 				}
@@ -831,7 +1150,7 @@ func TestVerifC17Hostile(t *testing.T) {
 		j, errored, nAtErr, errVal := rc.snapshot()
 		rc.close()
 
-		var ic, ih, bc []string
+		var ic, ih, bc, nc []string
 		for _, it := range items {
 			ic = append(ic, it.coq())
 			ih = append(ih, it.human())
@@ -839,14 +1158,21 @@ func TestVerifC17Hostile(t *testing.T) {
 		for _, b := range bufs {
 			bc = append(bc, vg.ZL(b))
 		}
+		for _, nl := range nils {
+			xs := make([]string, len(nl))
+			for i, v := range nl {
+				xs[i] = vg.B(v)
+			}
+			nc = append(nc, vg.L(xs))
+		}
 		dc := make([]string, len(ds))
 		for i, d := range ds {
 			dc[i] = vg.Tup(vg.Z(int64(d.id)), vg.Z(int64(d.rcap)))
 		}
 		jc, jh := c17Journal(j)
-		term := vg.App("CHostile", vg.L(dc), vg.L(ic), vg.L(bc), vg.B(errored), vg.Z(int64(nAtErr)), jc)
-		descr := fmt.Sprintf("raw stream into a started MConnection (MaxPacketMsgPayloadSize=%d, channels=[%s]): %s | len(recving) after each item: %v | onError=%v (%v) journal at error=%d | journal: %s",
-			maxsz, c17DescsHuman(ds), strings.Join(ih, "; "), bufs, errored, errVal, nAtErr, jh)
+		term := vg.App("CHostile", vg.L(dc), c17BcapsCoq(ds), vg.L(ic), vg.L(bc), vg.L(nc), vg.B(errored), vg.Z(int64(nAtErr)), jc)
+		descr := fmt.Sprintf("raw stream into a started MConnection (MaxPacketMsgPayloadSize=%d, channels=[%s]): %s | len(recving) after each item: %v | recving==nil after each item: %v | onError=%v (%v) journal at error=%d | journal: %s",
+			maxsz, c17DescsHuman(ds), strings.Join(ih, "; "), bufs, nils, errored, errVal, nAtErr, jh)
 		cs.Add(id, "hostile:"+kind, true, term, descr)
 	}
 	if err := cs.Write(); err != nil {
